@@ -796,30 +796,36 @@ theorem subselect_atom (c1 : Chars) (Y : List Tok) (v : JV) (h1 : lexL c1 ≠ []
   exact scanTop_other _ rfl _ (argToks_other v).2 0
 
 set_option maxRecDepth 100000 in
-theorem balanceOf_atom (asset ledger : Chars) (v : JV) :
+theorem scan_balanceTail (op : String) : scanTop isConn 1 (lexL (balanceTail op)) = some 0 := by
+  unfold balanceTail opSql
+  repeat' split
+  all_goals decide
+
+set_option maxRecDepth 100000 in
+theorem balanceOf_atom (asset ledger : Chars) (op : String) (v : JV) :
     isAtomToks (pieceToks [.code (balanceHead ++ "asset = ".toList), .lit (quoteBody asset),
        .code " and account_address = accounts.address and ledger = ".toList, .lit (quoteBody ledger),
-       .code balanceTail, argPiece v]) = true := by
+       .code (balanceTail op), argPiece v]) = true := by
   rw [pieceToks_code, pieceToks_lit (qsafe_quoteBody asset), pieceToks_code, pieceToks_lit (qsafe_quoteBody ledger), pieceToks_code]
   have := subselect_atom (balanceHead ++ "asset = ".toList)
     (strTok (quoteBody asset) :: (lexL " and account_address = accounts.address and ledger = ".toList ++
-      strTok (quoteBody ledger) :: lexL balanceTail)) v (by decide) (by decide) (by decide) (by decide) (by
+      strTok (quoteBody ledger) :: lexL (balanceTail op))) v (by decide) (by decide) (by decide) (by decide) (by
         rw [scanTop_cons_other _ rfl (cls_strTok _), scanTop_append,
           show scanTop isConn 1 (lexL " and account_address = accounts.address and ledger = ".toList) = some 1 by decide]
         simp only [Option.bind]
         rw [scanTop_cons_other _ rfl (cls_strTok _)]
-        decide)
+        exact scan_balanceTail op)
   simpa [List.append_assoc] using this
 
 set_option maxRecDepth 100000 in
-theorem balance_atom (ledger : Chars) (v : JV) :
+theorem balance_atom (ledger : Chars) (op : String) (v : JV) :
     isAtomToks (pieceToks [.code (balanceHead ++ "account_address = accounts.address and ledger = ".toList), .lit (quoteBody ledger),
-       .code balanceTail, argPiece v]) = true := by
+       .code (balanceTail op), argPiece v]) = true := by
   rw [pieceToks_code, pieceToks_lit (qsafe_quoteBody ledger), pieceToks_code]
   have := subselect_atom (balanceHead ++ "account_address = accounts.address and ledger = ".toList)
-    (strTok (quoteBody ledger) :: lexL balanceTail) v (by decide) (by decide) (by decide) (by decide) (by
+    (strTok (quoteBody ledger) :: lexL (balanceTail op)) v (by decide) (by decide) (by decide) (by decide) (by
         rw [scanTop_cons_other _ rfl (cls_strTok _)]
-        decide)
+        exact scan_balanceTail op)
   simpa [List.append_assoc] using this
 
 /-! ### comparisons and metadata -/
@@ -871,11 +877,11 @@ theorem leaf_reads {ep : Endpoint} {pit : Bool} {ledger : Chars} {key : FKey} {o
       simp only [leafSkel, h0]
   -- accounts.balanceOf
   · obtain rfl := Except.ok.inj h
-    refine one ?_ (balanceOf_atom _ _ _)
+    refine one ?_ (balanceOf_atom _ _ _ _)
     simp only [leafSkel, h0]
   -- accounts.balance
   · obtain rfl := Except.ok.inj h
-    refine one ?_ (balance_atom _ _)
+    refine one ?_ (balance_atom _ _ _)
     simp only [leafSkel, h0]
   -- transactions.account
   · split at h
